@@ -214,11 +214,11 @@ impl Node {
     }
 
     pub fn sdk(&self, req: &Req) -> Result<Resp, String> {
-        rawhttp::send(self.http, req, Duration::from_secs(4))
+        rawhttp::send(self.http, req, Duration::from_secs(10))
     }
 
     pub fn con(&self, req: &Req) -> Result<Resp, String> {
-        rawhttp::send(self.console, req, Duration::from_secs(4))
+        rawhttp::send(self.console, req, Duration::from_secs(10))
     }
 
     /// OpenAPI login; returns the access token
